@@ -32,6 +32,7 @@ def scan_function(fn: ast.AST, member_name: str, ordering_scope: bool, helpers=(
             if orientation:
                 out.append(("extent-guessed-orientation", u(n)[:70], "whether a vector runs along the rows or the columns is decided by comparing its LENGTH with an extent of the block: both match when the block is square, and the vector is laid out the wrong way"))
     out += _int_only_value_tests(fn)
+    out += _aliased_accumulators(fn)
     for n in ast.walk(fn):
         if isinstance(n, ast.BinOp) and isinstance(n.op, ast.FloorDiv):
             out.append(("floor-division", u(n)[:70], "weighted counts and bases are fractional: integer division truncates them"))
@@ -60,6 +61,42 @@ def scan_function(fn: ast.AST, member_name: str, ordering_scope: bool, helpers=(
                 out.append(("unordered", u(n.iter)[:70], "iteration order of a set is arbitrary: the order built from it is not the specified one"))
             if isinstance(n, ast.Call) and u(n.func) in ("list", "tuple", "np.array", "np.fromiter") and n.args and isinstance(n.args[0], ast.Call) and u(n.args[0].func) in ("set", "frozenset"):
                 out.append(("unordered", u(n)[:70], "a set turned into a sequence has arbitrary order"))
+    return out
+
+
+_FRESH_MUTABLE_CALLS = ("list", "dict", "set", "np.zeros", "np.ones", "np.empty", "np.full", "np.zeros_like", "np.full_like", "np.empty_like", "collections.OrderedDict", "OrderedDict", "bytearray")
+
+
+def _aliased_accumulators(fn: ast.AST) -> List[Tuple[str, str, str]]:
+    """`a = b = [0] * n` binds ONE list to two names: filling `a[i]` and `b[i]` in turn leaves both with whatever was written
+    last (the weighted count over the unweighted one).  Reported when a fresh mutable object is bound to two names in one
+    chained assignment and BOTH names are written through afterwards."""
+    out = []
+    for n in ast.walk(fn):
+        if not (isinstance(n, ast.Assign) and len(n.targets) >= 2 and all(isinstance(t, ast.Name) for t in n.targets)):
+            continue
+        v = n.value
+        fresh = isinstance(v, (ast.List, ast.Dict, ast.Set, ast.ListComp, ast.DictComp, ast.SetComp)) or (
+            isinstance(v, ast.BinOp) and isinstance(v.op, ast.Mult) and (isinstance(v.left, ast.List) or isinstance(v.right, ast.List))
+        ) or (isinstance(v, ast.Call) and u(v.func) in _FRESH_MUTABLE_CALLS)
+        if not fresh:
+            continue
+        names = [t.id for t in n.targets]
+        written = set()
+        for w in ast.walk(fn):
+            tgt = None
+            if isinstance(w, ast.Assign):
+                for t0 in w.targets:
+                    for t in (t0.elts if isinstance(t0, (ast.Tuple, ast.List)) else [t0]):
+                        if isinstance(t, ast.Subscript) and isinstance(t.value, ast.Name):
+                            written.add(t.value.id)
+            elif isinstance(w, ast.AugAssign) and isinstance(w.target, ast.Subscript) and isinstance(w.target.value, ast.Name):
+                written.add(w.target.value.id)
+            elif isinstance(w, ast.Call) and isinstance(w.func, ast.Attribute) and isinstance(w.func.value, ast.Name) and w.func.attr in ("append", "extend", "insert", "update", "add", "setdefault", "fill", "put"):
+                written.add(w.func.value.id)
+        both = [x for x in names if x in written]
+        if len(both) >= 2:
+            out.append(("aliased-accumulators", u(n)[:70], f"{' and '.join(both)} are one object: what is written through one name is read through the other"))
     return out
 
 
@@ -213,6 +250,9 @@ def columns_scale_median_margin(self, c):
     return np.nan_to_num(c).astype("int64"), sorted(set(c)), c is None
 
 def pad(self, elements):
+    a = b = [0] * len(elements)
+    a[0], c = 1, 2
+    b[0] = 2
     values = [el.get("value") for el in elements]
     return [v for v in values if isinstance(v, (int, str))] + [el for el in elements if isinstance(el["value"], (int, float, str))]
 '''
